@@ -84,6 +84,14 @@ def analyze(program: dict, obs: list[dict]) -> dict[str, dict]:
                 n_visible=len(c["visible"]),
                 hidden_part=any(u not in [v[1] for v in c["visible"]] for u in c["partition_by"]),
             )
+        if c and st["op"] == "filter":
+            # does the filter mention a window column (by its current or by its creation name)?  Then the code demands a subquery
+            # and an alias() before the filter is materialised; otherwise the alias stays a no-op
+            vis = dict((v[1], v[0]) for v in c["visible"])
+            wnames = {x[1] for x in c["cols"] if x[3] == "window"} | {vis[x[0]] for x in c["cols"] if x[3] == "window" and x[0] in vis}
+            leaves = []
+            _walk(st.get("preds"), lambda d: leaves.append(d["c"] if "c" in d else (d["col"][1] if "col" in d else None)))
+            f["mentions_window"] = any(n in wnames for n in leaves if n is not None)
         prev = dict(chain.get(src, dict(arranged=False, sliced0=False, verbs=[], sources=set())))
         prev["verbs"] = list(prev["verbs"])
         prev["sources"] = set(prev["sources"])
@@ -138,7 +146,9 @@ def triggers_of(program: dict, facts: dict[str, dict]) -> dict[str, list[str]]:
             #  correct: D1 is about the filter that lands in the window's own SELECT)
             verbs_ = f.get("chain", {}).get("verbs", [])
             last_def = max([i for i, v_ in enumerate(verbs_) if v_ in ("mutate", "summarize")], default=-1)
-            if "alias" not in verbs_[last_def + 1:]:
+            # … unless that alias stayed a no-op: a filter that does not *mention* the window column demands no subquery, the
+            # alias is not materialised and the window column is still a window column of the filter's result
+            if "alias" not in verbs_[last_def + 1:] or not f.get("mentions_window", True):
                 hit("D1", sid)
         if op == "mutate" and aggwin and f.get("limit") is not None:
             hit("D2", sid)
